@@ -1,2 +1,61 @@
-(** C11 — statements only; see Proofs/. *)
-From RRSS Require Import Base.Outcome.
+(** C11 — Poetic literals denote the number or string their words spell.
+    Statements only; proofs in Proofs/PoeticLaws.v. *)
+From Coq Require Import List ZArith NArith Bool QArith Qpower.
+From RRSS Require Import Base.Outcome Base.Chars Base.F64 Front.Ast Front.Token Front.Lexer Front.Poetic Front.Parser Proofs.PoeticLaws.
+Import ListNotations.
+
+(** In exact arithmetic the algorithm of PoeticNumberLiteral::compute_value (the same generic
+    definition that is instantiated with f64 operations for execution) yields the decimal numeral
+    whose digits are the word lengths modulo 10 ([poetic_digits]: apostrophes not counted,
+    hyphenated and apostrophe-suffixed parts counted with their word, periods and commas yielding no
+    digit), with the decimal point after the digits that precede the first period. *)
+Theorem C11_poetic_value_exact :
+  forall elems,
+  (compute_value_gen (fun d => inject_Z (Z.of_N d)) Qmult Qplus (fun n => Qpower 10 n) 0 elems ==
+   inject_Z (number (poetic_digits elems)) *
+   Qpower 10 (poetic_int_digits elems - Z.of_nat (length (poetic_digits elems))))%Q.
+Proof. exact poetic_value_exact. Qed.
+
+(** without a period: exactly the integer (no rounding involved in integer arithmetic) *)
+Theorem C11_poetic_integer_value :
+  forall elems,
+  poetic_int_digits elems = Z.of_nat (length (poetic_digits elems)) ->
+  compute_value_gen Z.of_N Z.mul Z.add (fun n => 10 ^ n)%Z 0%Z elems = number (poetic_digits elems).
+Proof. exact poetic_integer_value. Qed.
+
+Theorem C11_word_len_skips_apostrophes :
+  forall a b, word_len (a ++ [39%N] ++ b) = (word_len a + word_len b)%N.
+Proof. exact word_len_skips_apostrophes. Qed.
+
+Theorem C11_suffixed_word_counts_together :
+  forall s ss, item_len (PISuffixed s ss) = fold_left (fun a x => (a + word_len x)%N) ss (word_len s).
+Proof. exact suffixed_word_counts_together. Qed.
+
+(** a right-hand side that starts with a literal word or a negative number is an ordinary expression *)
+Theorem C11_rhs_literal_word_is_expression :
+  forall prof fuel s t, current s = Some t -> is_literal_word (tid t) = true ->
+  parse_poetic_number_rhs prof fuel s = (let* (e, s1) := parse_expression prof fuel s in Ok (PNExpr e, s1)).
+Proof. exact poetic_rhs_literal_word_is_expression. Qed.
+
+Theorem C11_rhs_negative_number_is_expression :
+  forall prof fuel s t, current s = Some t -> is_literal_word (tid t) = false ->
+  is_current_negative_number prof s = Ok true ->
+  parse_poetic_number_rhs prof fuel s = (let* (e, s1) := parse_expression prof fuel s in Ok (PNExpr e, s1)).
+Proof. exact poetic_rhs_negative_number_is_expression. Qed.
+
+Theorem C11_rhs_otherwise_is_literal :
+  forall prof fuel s t, current s = Some t -> is_literal_word (tid t) = false ->
+  is_current_negative_number prof s = Ok false ->
+  parse_poetic_number_rhs prof fuel s = (let* (el, s1) := parse_poetic_number_literal s in Ok (PNLit el, s1)).
+Proof. exact poetic_rhs_otherwise_is_literal. Qed.
+
+(** Non-vacuity: `a lovestruck ladykiller. ice-cold dream's end` : digits 1 0 0 . 8 6 3 = 100.863;
+    the f64 instance prints 100.863 *)
+Example C11_example :
+  let el := [PEWord (lit "a"); PEWord (lit "lovestruck"); PEWord (lit "ladykiller"); PEDot;
+             PEWord (lit "ice"); PESuffix (lit "-cold"); PEWord (lit "dream"); PESuffix (lit "'s"); PEWord (lit "end")] in
+  poetic_digits el = [1; 0; 0; 8; 6; 3]%N /\ poetic_int_digits el = 3%Z /\
+  Base.F64Text.f64_display (compute_value el) = lit "100.863".
+Proof. vm_compute. repeat split; reflexivity. Qed.
+
+Print Assumptions C11_poetic_value_exact.
